@@ -17,7 +17,7 @@ fn gen_named(r: &mut Rng) -> String {
         let n = 1 + r.below(4);
         let mut s = String::new();
         for _ in 0..n {
-            match r.below(7) {
+            match r.below(9) {
                 0 | 1 => s.push_str(*r.pick(ITEMS)),
                 2 | 3 => {
                     let name = *r.pick(NAMES);
@@ -34,10 +34,17 @@ fn gen_named(r: &mut Rng) -> String {
                     }
                 }
                 5 => write!(s, "\\k<{}>", r.pick(NAMES)).unwrap(),
-                _ => {
+                6 => {
                     // nested group with an inner alternative reusing a name
                     let a = *r.pick(NAMES);
                     write!(s, "(?:(?<{}>x)|(?<{}>y)|z)", a, a).unwrap();
+                }
+                _ => {
+                    // named and unnamed groups inside a lookaround (lookbehind bodies are emitted right to left)
+                    let open = *r.pick(&["(?<=", "(?<!", "(?=", "(?!", "(?<="]);
+                    let (a, b) = (*r.pick(NAMES), *r.pick(ITEMS));
+                    let second = match r.below(3) { 0 => format!("({})", r.pick(ITEMS)), 1 => format!("(?<{}>{})", r.pick(NAMES), r.pick(ITEMS)), _ => String::new() };
+                    write!(s, "{}(?<{}>{}){})", open, a, b, second).unwrap();
                 }
             }
         }
@@ -97,9 +104,27 @@ pub fn emit_api_case(out: &mut String, id: u64, p: &str, f: &str, hays: &[String
         write!(nl, " {}", hex(n.as_bytes())).unwrap();
     }
     writeln!(out, "{}", nl).unwrap();
+    // the names of the capturing groups in left-parenthesis order, read off the pattern text
+    if let Some(src) = source_group_names(p) {
+        let mut sl = format!("NS {}", src.len());
+        for n in &src {
+            write!(sl, " {}", hex(n.as_bytes())).unwrap();
+        }
+        writeln!(out, "{}", sl).unwrap();
+    }
     let mut qnames: Vec<String> = NAMES.iter().map(|s| s.to_string()).collect();
     qnames.push("".into());
     qnames.push("zz".into());
+    // exploding searches (exponential backtracking) are not what this stream is about: bound the first pass
+    for t in hays {
+        crate::verif::reset_steps(2_000_000);
+        let r = panic::catch_unwind(panic::AssertUnwindSafe(|| re.find_iter(t).count()));
+        crate::verif::reset_steps(u64::MAX);
+        if r.is_err() {
+            out.clear();
+            return false;
+        }
+    }
     for t in hays {
         writeln!(out, "T {}", hex(t.as_bytes())).unwrap();
         let ms: Vec<regress::Match> = re.find_iter(t).collect();
@@ -252,4 +277,49 @@ pub fn cmd_apicases(args: &[String]) {
             print!("{}", out);
         }
     }
+}
+
+/// Capturing groups of a pattern in left-parenthesis order ("" = unnamed), by a scan of the pattern text that
+/// skips escapes and character classes.  None when the text uses something the scan does not understand
+/// (escaped names), so that no verdict is derived from it.
+pub fn source_group_names(p: &str) -> Option<Vec<String>> {
+    let cs: Vec<char> = p.chars().collect();
+    let mut out = Vec::new();
+    let mut i = 0;
+    let mut depth = 0usize; // class nesting
+    while i < cs.len() {
+        let c = cs[i];
+        if c == '\\' {
+            i += 2;
+            continue;
+        }
+        if depth > 0 {
+            if c == '[' { depth += 1; } else if c == ']' { depth -= 1; }
+            i += 1;
+            continue;
+        }
+        if c == '[' {
+            depth = 1;
+            i += 1;
+            continue;
+        }
+        if c == '(' {
+            if i + 1 < cs.len() && cs[i + 1] == '?' {
+                if i + 2 < cs.len() && cs[i + 2] == '<' && i + 3 < cs.len() && cs[i + 3] != '=' && cs[i + 3] != '!' {
+                    let mut j = i + 3;
+                    let mut name = String::new();
+                    while j < cs.len() && cs[j] != '>' {
+                        if cs[j] == '\\' { return None; }
+                        name.push(cs[j]);
+                        j += 1;
+                    }
+                    out.push(name);
+                }
+            } else {
+                out.push(String::new());
+            }
+        }
+        i += 1;
+    }
+    Some(out)
 }
